@@ -4,3 +4,9 @@ package profile
 
 // VerifSimplifyFunc exposes simplifyFunc (prune.go) to the verification harness (C11).
 func VerifSimplifyFunc(s string) string { return simplifyFunc(s) }
+
+// VerifC11LegacyRx exposes the built-in expressions addLegacyFrameInfo attaches to legacy profiles:
+// heap drop, heap keep, contention drop, cpu (default) drop.
+func VerifC11LegacyRx() [4]string {
+	return [4]string{allocRxStr, allocSkipRxStr, lockRxStr, cpuProfilerRxStr}
+}
